@@ -164,6 +164,7 @@ pub fn verify_dir<H: HK>(
         hist::check_proofs(&db, &[], &m.cur, &q, true, 0, &mut info)
             .map_err(|v| format!("{what}: proofs do not confirm the {which:?} state: {}", v.msg))?;
     }
+    let mut expected = m.cur.clone();
     if deep >= 2 {
         if deep == 3 && m.rollback && m.guaranteed >= 1 {
             // rollback probe (destructive; the image is a throw-away copy)
@@ -176,6 +177,7 @@ pub fn verify_dir<H: HK>(
             let keys: Vec<Key> = back.keys().chain(m.cur.keys()).cloned().collect();
             hist::check_values(&db, back, &keys, false, 0)
                 .map_err(|v| format!("{what}: after rollback(1) on the recovered store: {}", v.msg))?;
+            expected = back.clone();
         } else {
             // one more commit behaves as in the model
             let mut s = SplitMix(ctx.salt ^ 0x77);
@@ -205,9 +207,12 @@ pub fn verify_dir<H: HK>(
             let keys: Vec<Key> = batch.iter().map(|(k, _)| *k).collect();
             hist::check_values(&db, &next, &keys, false, 0)
                 .map_err(|v| format!("{what}: after a further commit on the recovered store: {}", v.msg))?;
+            expected = next;
         }
     }
     db.close().map_err(|f| format!("{what}: closing the recovered store: {}", f.sig()))?;
+    // C16 on recovered images: the files decode to exactly the expected state
+    hist::decode_check::<H>(dir, &expected).map_err(|m| format!("{what}: after recovery{} {m}", if deep >= 2 { " and one more operation" } else { "" }))?;
     Ok(which)
 }
 
